@@ -163,6 +163,9 @@ partial def decodeGoType (j : Lean.Json) : Except String (Option Go.GoType) := d
   | "opaque" => pure (some (.basic "Opaque"))
   | "ref" => pure (some (.ref (← j.getObjValAs? String "name")))
   | "named" =>
+    -- a DEFINED POINTER type (`type P *T`) has reflect kind Pointer and is stripped by forType before any name is looked at;
+    -- the model's type language has no such types: unmodelled (the Go-side oracles still apply)
+    if ((j.getObjVal? "u").toOption.bind fun u => (u.getObjValAs? String "k").toOption) == some "ptr" then pure none else
     match ← sub "u" with
     | some u => pure (some (.named (← j.getObjValAs? String "name") u))
     | none => pure none
@@ -212,6 +215,9 @@ partial def decodeGoTypeE (j : Lean.Json) : Except String (Option Go.GoTypeE) :=
   | "opaque" => pure (some (.basic "Opaque"))
   | "ref" => pure (some (.ref (← j.getObjValAs? String "name")))
   | "named" =>
+    -- a DEFINED POINTER type (`type P *T`) has reflect kind Pointer and is stripped by forType before any name is looked at;
+    -- the model's type language has no such types: unmodelled (the Go-side oracles still apply)
+    if ((j.getObjVal? "u").toOption.bind fun u => (u.getObjValAs? String "k").toOption) == some "ptr" then pure none else
     match ← sub "u" with
     | some u => pure (some (.named (← j.getObjValAs? String "name") u))
     | none => pure none
